@@ -196,3 +196,35 @@ theorem C13_code_views (S : List Sp) (ex : Bool) (pairs : List PairEnt) (els : L
 
 
 end Atsim.C13
+
+/-! ### the command line's choice of species list and mode, regenerated from potable's `_do_tabulation` (up to the call of `_make_config_parser`) -/
+namespace Atsim.C13
+open Atsim Atsim.Gen.Logic
+
+/-- what a potable run filters with: `_make_config_parser` wraps the parser in a view only when a species list was chosen, with `exclude=` or `include=` by the flag
+(`C13_code_filter_init` gives the constructor's reading of that); `none` = no view at all -/
+def cliView (args : CliArgs) : Option (Bool × List Sp) :=
+  match cli_species_choice () args with
+  | (none, _) => none
+  | (some S, true) => some (modeCurrent (some S) none)
+  | (some S, false) => some (modeCurrent none (some S))
+
+/-- **code tie**: `--include-species` - also when given without any label, which keeps nothing - decides; otherwise a non-empty `--exclude-species` list is excluded; otherwise
+nothing is filtered -/
+theorem C13_code_cli_species (args : CliArgs) :
+    cliView args =
+      (match args.include_species, args.exclude_species with
+       | some inc, _ => some (false, inc)
+       | none, some (x :: xs) => some (true, x :: xs)
+       | none, _ => none) := by
+  rcases args with ⟨inc, exc⟩
+  rcases inc with _ | inc <;> rcases exc with _ | _ | ⟨x, xs⟩ <;>
+    simp [cliView, cli_species_choice, modeCurrent]
+
+/-- the label-less `--include-species` is include-mode with the empty set (which keeps only entries that name no species at all - there are none in a model: `C13_holds`
+gives the hand-edit reading); without any species option there is no view and every entry is kept -/
+theorem C13_code_cli_corner (exc : Option (List String)) :
+    cliView ⟨some [], exc⟩ = some (false, []) ∧ cliView ⟨none, none⟩ = none ∧ cliView ⟨none, some []⟩ = none := by
+  refine ⟨?_, ?_, ?_⟩ <;> simp [C13_code_cli_species]
+
+end Atsim.C13
